@@ -138,67 +138,51 @@ fn shape_tag(text: &[u8], e: &YamlValidationError) -> Option<&'static str> {
             }
         }
     }
-    if e.kind == YamlValidationErrorKind::ContentAfterBlockScalarHeader {
-        // (3) `|` / `>` inside a plain scalar (`a: a | b`) taken for a block scalar header
-        let o = e.position.offset.min(text.len());
-        let ls = text[..o].iter().rposition(|&b| b == b'\n' || b == b'\r').map(|p| p + 1).unwrap_or(0);
-        if let Some(p) = text[ls..o].iter().rposition(|&b| b == b'|' || b == b'>') {
-            let p = ls + p;
-            let mut before: &[u8] = &text[ls..p];
-            while matches!(before.last(), Some(b' ' | b'\t')) {
-                before = &before[..before.len() - 1];
-            }
-            let had_ws = before.len() < p - ls;
-            let last_tok = before.rsplit(|&b| b == b' ' || b == b'\t').next().unwrap_or(b"");
-            let real_header_position = before.is_empty() || before.ends_with(b":") || last_tok == b"-" || last_tok == b"---" || matches!(last_tok.first(), Some(b'&' | b'!'));
-            if had_ws && !real_header_position {
-                return Some("pipe-inside-plain-scalar");
-            }
-        }
+    // (3) one of `[ { ' "` after white space / `,` / `[` / `{`, or `|` `>` after white space,
+    //     *inside* a block plain scalar taken for the start of a node
+    if matches!(
+        e.kind,
+        YamlValidationErrorKind::ContentAfterBlockScalarHeader
+            | YamlValidationErrorKind::UnclosedFlow { .. }
+            | YamlValidationErrorKind::UnclosedQuote { .. }
+            | YamlValidationErrorKind::UnbalancedFlow { .. }
+            | YamlValidationErrorKind::TrailingContentAfterScalar
+            | YamlValidationErrorKind::TrailingContent
+            | YamlValidationErrorKind::MissingFlowSeparator
+            | YamlValidationErrorKind::UnexpectedFlowComma
+            | YamlValidationErrorKind::InvalidEscape { .. }
+            | YamlValidationErrorKind::CommentNotSeparated
+            | YamlValidationErrorKind::DocumentMarkerInScalar
+            | YamlValidationErrorKind::UnexpectedCharacter { .. }
+            | YamlValidationErrorKind::BadIndentation
+    ) && lines.iter().any(|l| plain_with_opener(l))
+    {
+        return Some("opener-inside-plain-scalar");
     }
-    if let YamlValidationErrorKind::UnknownAnchor { name } = &e.kind {
-        // (4) the anchor *is* defined earlier, on a line that follows a block scalar opened on
-        //     a compact line (`- - |`, `- k: |`); the validator took that line for content
-        let mut pos = 0;
-        let mut starts = vec![];
-        for l in &lines {
-            starts.push(pos);
-            pos += l.len();
-            if text.get(pos) == Some(&b'\r') && text.get(pos + 1) == Some(&b'\n') {
-                pos += 2;
-            } else {
-                pos += 1;
+    if matches!(e.kind, YamlValidationErrorKind::UnknownAnchor { .. } | YamlValidationErrorKind::BadIndentation | YamlValidationErrorKind::TrailingContent) {
+        // (4) a block scalar opened on a compact line (`- - |`, `- k: |`): its content is
+        //     measured against the line's indentation, so following sibling lines are
+        //     swallowed (anchors defined there are unknown, indentation frames go missing)
+        let is_header_line = |l: &[u8]| {
+            let mut t = l;
+            if let Some(p) = t.windows(2).position(|x| matches!(x[0], b' ' | b'\t') && x[1] == b'#') {
+                t = &t[..p];
             }
-        }
-        let needle = format!("&{}", name);
-        let def = lines.iter().enumerate().position(|(i, l)| {
-            starts[i] < e.position.offset
-                && l.windows(needle.len()).enumerate().any(|(k, w)| w == needle.as_bytes() && matches!(l.get(k + needle.len()), None | Some(b' ' | b'\t')) && (k == 0 || matches!(l[k - 1], b' ' | b'\t' | b'[' | b'{' | b',')))
-        });
-        if let Some(dl) = def {
-            let is_header_line = |l: &[u8]| {
-                let mut t = l;
-                if let Some(p) = t.windows(2).position(|x| matches!(x[0], b' ' | b'\t') && x[1] == b'#') {
-                    t = &t[..p];
-                }
-                while matches!(t.last(), Some(b' ' | b'\t')) {
-                    t = &t[..t.len() - 1];
-                }
-                let tok = t.rsplit(|&b| b == b' ' || b == b'\t').next().unwrap_or(b"");
-                matches!(tok, b"|" | b">" | b"|-" | b"|+" | b">-" | b">+")
-            };
-            let compact = |l: &[u8]| {
-                let t = &l[ind(l).min(l.len())..];
-                t.starts_with(b"- ") && {
-                    let r = trim_ws(&t[2..]);
-                    r.starts_with(b"- ") || r.windows(2).any(|x| x[0] == b':' && matches!(x[1], b' ' | b'\t'))
-                }
-            };
-            for j in (0..dl).rev() {
-                if is_header_line(lines[j]) && compact(lines[j]) && ind(lines[dl]) > ind(lines[j]) {
-                    return Some("anchor-after-block-scalar-on-compact-line");
-                }
+            while matches!(t.last(), Some(b' ' | b'\t')) {
+                t = &t[..t.len() - 1];
             }
+            let tok = t.rsplit(|&b| b == b' ' || b == b'\t').next().unwrap_or(b"");
+            matches!(tok, b"|" | b">" | b"|-" | b"|+" | b">-" | b">+")
+        };
+        let compact = |l: &[u8]| {
+            let t = &l[ind(l).min(l.len())..];
+            t.starts_with(b"- ") && {
+                let r = c14::trim_ws(&t[2..]);
+                r.starts_with(b"- ") || r.windows(2).any(|x| x[0] == b':' && matches!(x[1], b' ' | b'\t'))
+            }
+        };
+        if lines.iter().any(|l| is_header_line(l) && compact(l)) {
+            return Some("block-scalar-on-compact-line");
         }
     }
     if e.kind == YamlValidationErrorKind::TabInIndentation {
@@ -227,6 +211,15 @@ fn shape_tag(text: &[u8], e: &YamlValidationError) -> Option<&'static str> {
                 break;
             }
         }
+        // an anchor may stand between the dash and the node
+        if text.get(i) == Some(&b'&') {
+            while !matches!(text.get(i), None | Some(b' ' | b'\t' | b'\n' | b'\r')) {
+                i += 1;
+            }
+            while matches!(text.get(i), Some(b' ' | b'\t')) {
+                i += 1;
+            }
+        }
         if dashes > 0 && tab && matches!(text.get(i), Some(b'{' | b'[' | b'"' | b'\'')) {
             return Some("tab-after-dash-before-flow-or-quoted");
         }
@@ -234,23 +227,80 @@ fn shape_tag(text: &[u8], e: &YamlValidationError) -> Option<&'static str> {
     None
 }
 
-fn signature(text: &[u8], e: &YamlValidationError) -> String {
+/// Does this line hold a block-context plain scalar (key or value) that contains white space
+/// followed by one of `[ { ' " | >`?
+fn plain_with_opener(l: &[u8]) -> bool {
+    let mut t = c14::trim_ws(l);
+    // `- ` chain
+    while t.first() == Some(&b'-') && matches!(t.get(1), Some(b' ' | b'\t')) {
+        t = c14::trim_ws(&t[1..]);
+    }
+    let has_opener = |s: &[u8]| {
+        s.windows(2).any(|w| (matches!(w[0], b' ' | b'\t') && b"[{'\"|>".contains(&w[1])) || (b",[{".contains(&w[0]) && b"[{'\"".contains(&w[1])))
+    };
+    let plain_start = |s: &[u8]| !matches!(s.first(), None | Some(b'[' | b'{' | b'\'' | b'"' | b'|' | b'>' | b'&' | b'*' | b'!' | b'#'));
+    // a plain value after any `: ` of the line (the key may be quoted)
+    for p in 0..t.len().saturating_sub(1) {
+        if t[p] == b':' && matches!(t[p + 1], b' ' | b'\t') {
+            let val = c14::trim_ws(&t[p + 1..]);
+            if plain_start(val) && has_opener(val) {
+                return true;
+            }
+        }
+    }
+    if !plain_start(t) {
+        return false;
+    }
+    // a plain key, or a plain scalar without any value indicator
+    match t.windows(2).position(|w| w[0] == b':' && matches!(w[1], b' ' | b'\t')) {
+        Some(p) => has_opener(&t[..p]),
+        None => has_opener(if t.ends_with(b":") { &t[..t.len() - 1] } else { t }),
+    }
+}
+
+fn shape_from_spans(e: &YamlValidationError, r: &gy::RenderedYaml) -> Option<&'static str> {
+    use YamlValidationErrorKind as K;
+    gy::known_shapes(r).into_iter().find(|&s| match s {
+        "compact-collection-return-after-deeper" => e.kind == K::BadIndentation,
+        "tab-after-dash-before-flow-or-quoted" => e.kind == K::TabInIndentation,
+        "opener-inside-plain-scalar" => matches!(
+            e.kind,
+            K::ContentAfterBlockScalarHeader
+                | K::UnclosedFlow { .. }
+                | K::UnclosedQuote { .. }
+                | K::UnbalancedFlow { .. }
+                | K::TrailingContentAfterScalar
+                | K::TrailingContent
+                | K::MissingFlowSeparator
+                | K::UnexpectedFlowComma
+                | K::InvalidEscape { .. }
+                | K::CommentNotSeparated
+                | K::DocumentMarkerInScalar
+                | K::UnexpectedCharacter { .. }
+                | K::BadIndentation
+        ),
+        "block-scalar-on-compact-line" => matches!(e.kind, K::UnknownAnchor { .. } | K::BadIndentation | K::TrailingContent),
+        _ => false,
+    })
+}
+
+fn signature(text: &[u8], e: &YamlValidationError, r: Option<&gy::RenderedYaml>) -> String {
     let mut s = format!("C18/generated-rejected/{}", kind_name(&e.kind));
-    if let Some(t) = shape_tag(text, e) {
+    if let Some(t) = shape_tag(text, e).or_else(|| r.and_then(|r| shape_from_spans(e, r))) {
         s.push('/');
         s.push_str(t);
     }
     s
 }
 
-fn accept_case(text: &[u8], st: &mut Stats) -> Result<(), Fail> {
+fn accept_case(text: &[u8], st: &mut Stats, r: Option<&gy::RenderedYaml>) -> Result<(), Fail> {
     st.evals(1);
     match validate(text) {
         Ok(()) => Ok(()),
         Err(e) => {
             // a rejection of a well-formed document; its position must still be consistent
             check_position(text, &e)?;
-            Err(Fail::new(signature(text, &e), json!({"error": e.to_string(), "kind": format!("{:?}", e.kind), "yaml": show_bytes(text)})))
+            Err(Fail::new(signature(text, &e, r), json!({"error": e.to_string(), "kind": format!("{:?}", e.kind), "yaml": show_bytes(text)})))
         }
     }
 }
@@ -345,7 +395,7 @@ pub fn run(cx: &mut Ctx) {
             cx.replay_outcome(&name, r);
         }
     }
-    let avoid_c18 = YAvoid { compact_collection_return_after_deeper: true, tab_after_dash_before_flow_or_quoted: true, pipe_inside_plain: true, block_scalar_on_compact_line: true, ..YAvoid::none() };
+    let avoid_c18 = YAvoid { compact_collection_return_after_deeper: true, tab_after_dash_before_flow_or_quoted: true, opener_after_space_in_plain: true, block_scalar_on_compact_line: true, ..YAvoid::none() };
     let o = opts(cx, avoid_c18);
     cx.check(
         "generated-accepted",
@@ -354,7 +404,7 @@ pub fn run(cx: &mut Ctx) {
         |u, st| {
             let (stream, r) = gen_text(u, &o, Some(st));
             st.describe(|| c14::describe(&stream, &r));
-            accept_case(&r.text, st)
+            accept_case(&r.text, st, Some(&r))
         },
     );
     for cl in [
@@ -376,7 +426,7 @@ pub fn run(cx: &mut Ctx) {
             let o = &plain[u.below(3)];
             let (stream, r) = gen_text(u, o, Some(st));
             st.describe(|| c14::describe(&stream, &r));
-            accept_case(&r.text, st)
+            accept_case(&r.text, st, Some(&r))
         },
     );
     let open = opts(cx, YAvoid::none());
@@ -387,7 +437,7 @@ pub fn run(cx: &mut Ctx) {
         |u, st| {
             let (stream, r) = gen_text(u, &open, Some(st));
             st.describe(|| c14::describe(&stream, &r));
-            accept_case(&r.text, st)
+            accept_case(&r.text, st, Some(&r))
         },
     );
 
@@ -470,7 +520,7 @@ fn replay_input(v: &Value) -> Option<Fail> {
                 Err(e) => check_position(&text, &e),
             }
         } else {
-            accept_case(&text, &mut st)
+            accept_case(&text, &mut st, None)
         }
     });
     match r {
